@@ -623,6 +623,22 @@ public:
                     if (vd->getTLSKind() != VarDecl::TLS_None)
                         o["thread_local"] = true;
                     o["decl_file"] = fileOf(vd->getLocation());
+                    // dynamic initialisation (namespace scope / static data member): before the initialisers of its unit have run the
+                    // object is only zero-initialised - a function that reads it gives another result when it is called from a static
+                    // initialiser of another unit
+                    if (!vd->isStaticLocal())
+                    {
+                        const VarDecl* idef = nullptr;
+                        if (const Expr* init = vd->getAnyInitializer(idef))
+                        {
+                            if (init->isValueDependent() || init->isTypeDependent() || vd->getType()->isDependentType())
+                                o["init_kind"] = "dependent";
+                            else if (idef && !idef->isInvalidDecl())
+                                o["init_kind"] = (idef->isConstexpr() || idef->hasConstantInitialization()) ? "constant" : "dynamic";
+                        }
+                        else if (!vd->getType()->isDependentType())
+                            o["init_kind"] = vd->hasDefinition() || vd->isStaticDataMember() ? "zero" : "extern";
+                    }
                     // constant tables: the initialiser of a const global (small literal lists only)
                     if (!inConstInit && ctx.getBaseElementType(vd->getType()).isConstQualified())
                     {
